@@ -593,7 +593,8 @@ def spell_rule(e):
 C_FIELDS = ["f", "g", "h"]
 C_MODS = ["", "", "", "", "contains", "startswith", "endswith", "contains|all", "all", "cased", "re", "re|i", "cidr", "exists",
           "windash", "gt", "fieldref", "fieldref|startswith", "neq", "contains|neq", "expand", "expand", "contains|expand", "base64"]
-PH_VALUES = ["%x%", "a%x%", "%x%b%y%", "%y%", "p%z%q", "%x%*"]
+PH_VALUES = ["%x%", "a%x%", "%x%b%y%", "%y%", "p%z%q", "%x%*", "%x%-%z%"]
+BS_VALUES = ["\\\\\\\\srv\\\\share", "a\\\\\\\\", "x\\\\", "C:\\\\dir\\\\", "\\\\\\*"]   # adjacent / trailing literal backslashes
 
 
 def c_gen_item(rng):
@@ -605,6 +606,8 @@ def c_gen_item(rng):
             return rng.choice(PH_VALUES)
         if mod == "base64":
             return rng.choice(["ab", "Abc"])
+        if mod in ("", "contains", "startswith", "endswith", "cased", "all", "neq") and rng.random() < 0.12:
+            return rng.choice(BS_VALUES)
         v = gen_value(rng, mod)
         return v
     listy = rng.random() < (0.4 if mod in ("", "contains", "startswith", "endswith", "contains|all", "all", "cased", "neq", "expand", "cidr") else 0.0)
@@ -795,7 +798,7 @@ def selectors_inhabited(e, names):
 
 
 def gen_tr(tier, rng):
-    n = 1000 if tier == "quick" else 20000
+    n = 1000 if tier == "quick" else 16000
     out = []
     for i in range(n):
         names = rng.sample(NAMES, rng.randint(1, 3))
@@ -820,8 +823,21 @@ def gen_tr(tier, rng):
             nest = {"type": "nest", "items": inner}
             nest.update(gen_scope(rng) if rng.random() < 0.5 else {})
             items = [nest]
-        # replace_string first in a chain (its substitution table is computed from the values of the rule)
+        # replace_string first in a chain and only once (its substitution table - the re.sub oracle of the
+        # model - is computed from the values of the rule as loaded)
         items.sort(key=lambda it: 0 if it["type"] == "replace_string" else 1)
+        seen = [False]
+        def once(its):
+            for it in its:
+                if it["type"] == "nest":
+                    once(it["items"])
+                elif it["type"] == "replace_string":
+                    if seen[0]:
+                        for k in ("regex", "replacement"):
+                            it.pop(k)
+                        it["type"], it["method"] = "case", "upper"
+                    seen[0] = True
+        once(items)
         pipeline = {"name": "p", "priority": 10, "vars": VARS, "transformations": items}
         added = {}
         collect_added(items, "", added)
